@@ -12,9 +12,28 @@ stdout: JSON list, one observation per case
 """
 import functools
 import json
+import signal
 import sys
 
 from pydoctor import mro as M
+
+
+class Timeout(Exception):
+    pass
+
+
+def _alarm(signum, frame):
+    raise Timeout()
+
+
+def guard(seconds):
+    """a mutated loop that never ends becomes an observation (status 4, 'Timeout'), not a hung check"""
+    signal.signal(signal.SIGALRM, _alarm)
+    signal.setitimer(signal.ITIMER_REAL, seconds)
+
+
+def unguard():
+    signal.setitimer(signal.ITIMER_REAL, 0)
 
 
 def run_abs(h):
@@ -23,10 +42,17 @@ def run_abs(h):
     impl = []
     for c, _ in h:
         try:
-            impl.append([c, [0, list(M.mro(c, getbases))]])
+            guard(5)
+            r = list(M.mro(c, getbases))
+            unguard()
+            impl.append([c, [0, r]])
         except ValueError:
+            unguard()
             impl.append([c, [1, []]])
-        except Exception as e:  # noqa
+        except BaseException as e:  # noqa
+            unguard()
+            if isinstance(e, (KeyboardInterrupt, SystemExit)):
+                raise
             impl.append([c, [4, [], type(e).__name__]])
     # CPython: execute the class statements in order
     cls = {}
@@ -63,10 +89,17 @@ def run_abs(h):
 
 def run_merge(ls):
     try:
-        impl = [0, list(M._merge(*[list(l) for l in ls]))]
+        guard(5)
+        r = list(M._merge(*[list(l) for l in ls]))
+        unguard()
+        impl = [0, r]
     except ValueError:
+        unguard()
         impl = [1, []]
-    except Exception as e:  # noqa
+    except BaseException as e:  # noqa
+        unguard()
+        if isinstance(e, (KeyboardInterrupt, SystemExit)):
+            raise
         impl = [4, [], type(e).__name__]
     try:
         py = [0, list(functools._c3_merge([list(l) for l in ls]))]
